@@ -35,7 +35,7 @@ def overlap_obls(prefix):
     # find_file: level 1 with 0..3 files
     for n, tier in ((0, "quick"), (1, "quick"), (2, "quick"), (3, "quick"), (4, "thorough")):
         out.append(Obl("%s.find-file-N%d" % (prefix, n), "vset/overlap.c", real=VER_REAL, include_real=INC, kit=KIT,
-                       defs={"VP_MODE": 0, "VP_LV": 1, "VP_N1": n}, unwind=n + 2,
+                       defs={"VP_MODE": 0, "VP_LV": 1, "VP_N1": n}, unwind=9,
                        unwindset={"memcmp.0": 3, "ldb_find_file.0": 4},
                        restrict_fp=CMP_FP, tier=tier, timeout=300,
                        functions=["ldb_find_file", "ldb_ikc_compare"],
